@@ -400,6 +400,13 @@ func (s *slicer) sourcesAt(v ssa.Value, at *ssa.BasicBlock) []srcInfo {
 					// pointer selected by comparing the names with the option given: the value written that way
 					// is the value given for the option the entry names
 					n += throughPointer(a, mult, depth)
+					// the variable's address is one of the alternatives of a pointer selected under the option
+					// switch (`p = &prefix` … `*p = value`): the value stored through the pointer belongs to the
+					// case that selected this variable
+					for _, ss := range selectedPointerStores(a) {
+						n++
+						recCtx(ss.st.Val, mult, depth+1, ss.sel)
+					}
 					for _, name := range pointerTableNames(a) {
 						if vals := storesThroughTablePointer(s.fn, a); len(vals) > 0 {
 							n++
@@ -424,6 +431,10 @@ func (s *slicer) sourcesAt(v ssa.Value, at *ssa.BasicBlock) []srcInfo {
 									}
 								}
 								n += throughPointer(fa2, mult, depth)
+								for _, ss := range selectedPointerStores(fa2) {
+									n++
+									recCtx(ss.st.Val, mult, depth+1, ss.sel)
+								}
 							}
 						}
 						// plus whole-struct initialisation
@@ -980,6 +991,54 @@ func (s *slicer) pointerArgSources(addr ssa.Value) []srcInfo {
 					out = append(out, si)
 				}
 			})
+		}
+	}
+	return out
+}
+
+// selectedPointerStores: addr (the address of a local variable or of a field of one) is one of the
+// alternatives of a pointer that is chosen on control-flow edges (`var p *T; switch … case X: p = &a …`)
+// and written through afterwards (`*p = v`). Returns those stores together with the block from which the
+// edge that selects addr comes (the case that controls the choice).
+type selectedStore struct {
+	st  *ssa.Store
+	sel *ssa.BasicBlock
+}
+
+func selectedPointerStores(addr ssa.Value) []selectedStore {
+	var out []selectedStore
+	refs := addr.Referrers()
+	if refs == nil {
+		return nil
+	}
+	seen := map[*ssa.Phi]bool{}
+	var follow func(phi *ssa.Phi, sel *ssa.BasicBlock)
+	follow = func(phi *ssa.Phi, sel *ssa.BasicBlock) {
+		if seen[phi] {
+			return
+		}
+		seen[phi] = true
+		for _, r := range *phi.Referrers() {
+			switch y := r.(type) {
+			case *ssa.Store:
+				if y.Addr == ssa.Value(phi) {
+					out = append(out, selectedStore{y, sel})
+				}
+			case *ssa.Phi:
+				follow(y, sel)
+			}
+		}
+	}
+	for _, r := range *refs {
+		phi, ok := r.(*ssa.Phi)
+		if !ok {
+			continue
+		}
+		for i, e := range phi.Edges {
+			if e == addr {
+				seen = map[*ssa.Phi]bool{}
+				follow(phi, phi.Block().Preds[i])
+			}
 		}
 	}
 	return out
